@@ -10,6 +10,7 @@ structure DSys where
   m : Mpt.Ident.Sys := Sys.empty
   spec : List (Option Val) := []
   nodes : List Nat := []     -- slots that are node identifiers, in list (creation) order
+  items : List Nat := []     -- slots that are the identifier of a stand-alone C++ item<T>
   deriving Inhabited
 
 def parseDec (s : String) : Option Nat :=
@@ -150,6 +151,31 @@ def step (s : DSys) (w : List String) : DSys × String :=
     match parseDec sz with
     | some n => if n < 16 ∨ n > 300 ∨ s.m.ids.length ≥ maxSlots then (s, "bad-op") else newSlot s n
     | none => (s, "bad-op")
+  | ["i", "sinit"] =>
+    -- `MPT_IDENTIFIER_INIT` in a block of `sizeof(struct identifier)`: the same as `mpt_identifier_init(id, 16)`
+    if s.m.ids.length ≥ maxSlots then (s, "bad-op") else newSlot s 16
+  | ["i", "ninit"] =>
+    -- `MPT_NODE_INIT`: the node's identifier is the last member, initialised like `MPT_IDENTIFIER_INIT`
+    if s.m.ids.length ≥ maxSlots then (s, "bad-op") else newSlot s 16
+  | "i" :: "setfail" :: kw :: dw :: rest =>
+    -- `mpt_identifier_set` while malloc fails: refused and unchanged when an allocation is needed, else as usual;
+    -- the property allows both verdicts (it does not know the storage size) but nothing else
+    match getSlot s kw, parseBytes dw, (match rest with | [] => some none | [l] => (parseLen l).map some | _ => none) with
+    | some (k, id), some name, some olen =>
+      let len : Int := olen.getD ((name.getD []).length : Int)
+      let bad := match name with
+        | none => olen.isNone || len < 0
+        | some b => len > (b.length : Int)
+      if bad then (s, "bad-op")
+      else
+        let spSet : Vals := Vals.step s.spec (Op.abs (.set k name len))
+        let alts : Alts := [(setVerdict name len, spSet), ("refused", s.spec)]
+        match setNoMem id s.m.heap k (name.map (· ++ [0])) len with
+        | .error f => (s, line s!"FAULT:{faultName f}" s alts)
+        | .ok (id', h', ok) =>
+          let s' : DSys := { s with m := { ids := s.m.ids.set k (some id'), heap := h' }, spec := if ok then spSet else s.spec }
+          (s', line (if ok then "ok" else "refused") s' alts)
+    | _, _, _ => (s, "bad-op")
   | ["i", "alloc", ln] =>
     match parseDec ln with
     | some n =>
@@ -319,6 +345,42 @@ def stepX (s : DSys) (w : List String) : DSys × String :=
       if out = "bad-op" then (s, "bad-op")
       else if out.startsWith "R refused" then (s, line "refused" s [("refused", s.spec)])
       else (s2, out)
+  | ["xi", "inew"] =>
+    -- `item<T>()`: an identifier with 24 bytes of storage
+    if s.m.ids.length ≥ maxSlots then (s, "bad-op")
+    else
+      let k := s.m.ids.length
+      let (s1, out) := newSlot s 24
+      ({ s1 with items := s.items ++ [k] }, out)
+  | ["xi", "icopy", jw] =>
+    -- `item<T>(const item &)`: the identifier base is copy-constructed (traits-init shape: 16 bytes, then copy)
+    match getSlot s jw with
+    | some (j, _) =>
+      if !s.items.contains j ∨ s.m.ids.length ≥ maxSlots then (s, "bad-op")
+      else
+        let k := s.m.ids.length
+        let (s1, out) := step s ["i", "tinit", jw]
+        ({ s1 with items := s.items ++ [k] }, out)
+    | none => (s, "bad-op")
+  | ["xi", "iassign", kw, jw] =>
+    -- `item::operator=(const item &)`: the identifier is copied, nothing else of the name storage is touched
+    match getSlot s kw, getSlot s jw with
+    | some (k, _), some (j, _) =>
+      if !s.items.contains k ∨ !s.items.contains j then (s, "bad-op") else step s ["i", "copy", kw, jw]
+    | _, _ => (s, "bad-op")
+  | ["xi", "gclear", lw, ow] =>
+    -- names of items in a group survive the removal of other items (array compaction) and nothing is left allocated
+    let nums (w : String) : Option (List Nat) := (w.splitOn ",").mapM parseDec
+    match nums lw, (if ow = "-" then some [] else nums ow) with
+    | some lens, some order =>
+      if lens.isEmpty ∨ lens.length > 8 ∨ order.length > 8 ∨ lens.any (· > 5000) ∨ order.any (· ≥ lens.length)
+          ∨ order.eraseDups.length ≠ order.length then (s, "bad-op")
+      else
+        let keep := (List.range lens.length).filter fun i => !order.contains i
+        let txt := if keep.isEmpty then "-" else ",".intercalate (keep.map fun i => s!"{i}:{lens[i]?.getD 0}")
+        let r := s!"ok items={txt} leaked=0"
+        (s, line r s [(r, s.spec)])
+    | _, _ => (s, "bad-op")
   | ["xi", "name", kw] =>
     match getSlot s kw with
     | some (k, id) =>
